@@ -2,9 +2,11 @@
 //! counterexample to an obligation that Verus failed to discharge, and as bounded add-on
 //! evidence in the thorough tier).  Each subcommand prints one JSON object on stdout:
 //!   {"found": null | {...failing input...}, "evaluations": N, "distinct_nontrivial": M}
+mod c02;
 mod c07;
 mod c08;
 mod c10;
+mod c11;
 mod c12;
 mod c13;
 mod c16;
@@ -17,9 +19,11 @@ fn main() {
     let sub = args.get(1).map(|s| s.as_str()).unwrap_or("");
     let rest: Vec<String> = args.iter().skip(2).cloned().collect();
     match sub {
+        "c02" => c02::run(&rest),
         "c07" => c07::run(&rest),
         "c08" => c08::run(&rest),
         "c10" => c10::run(&rest),
+        "c11" => c11::run(&rest),
         "c12" => c12::run(&rest),
         "c13" => c13::run(&rest),
         "c16" => c16::run(&rest),
